@@ -56,6 +56,9 @@ type c06Tx struct {
 	// has no From field) and what the checks report about SPF/DKIM
 	dm   string // "", norecord, p-none, quarantine, reject, tempfail
 	auth string // fail, dkim-pass, spf-pass, absent
+	// modFail: recipients (as the client spells them) that the modifier of the
+	// a.example destination block of source origin.example refuses
+	modFail map[string]bool
 }
 
 // slowTXT delays TXT lookups and, like the real resolver, gives up when the
@@ -104,6 +107,7 @@ type c06World struct {
 	useL      bool   // the real stateless check L is configured (global)
 	nested    bool   // b.example is delivered through a nested pipeline (reroute) with a check of its own
 	nchk      *actors.ScriptedCheck
+	d1mod     bool // the a.example block of source origin.example has a (scripted) modifier that may refuse recipients
 	lAction   string // its fail_action: reject, quarantine, ignore
 	lArgs     []string // the arguments of the directive when they are more than the action
 	lTemp     bool     // ... and they make the rejection a temporary one
@@ -174,6 +178,7 @@ func (w *c06World) genScenario() {
 	w.partial = map[string]bool{"t1": s.T.Choose(st, 2) == 1, "t2": s.T.Choose(st, 2) == 1}
 	w.useL = s.T.Choose(st, 2) == 1
 	w.lAction = []string{"reject", "quarantine", "ignore"}[s.T.Choose(st, 3)]
+	w.d1mod = s.T.Choose(st, 3) == 0
 	// the directive may carry a reply of its own (wrapped around the check's
 	// reason), or be absent (the check's registered default applies: reject)
 	switch s.T.Choose(st, 4) {
@@ -308,6 +313,24 @@ func (w *c06World) build06() error {
 		d1 = append(d1, node("&X"))
 	}
 	rej := block("default_destination", nil, node("reject", "550", "5.1.1", "no such recipient here"))
+	d1blk := []config.Node{block("check", nil, d1...)}
+	if w.d1mod {
+		m := &actors.ScriptedModifier{Label: "modD1"}
+		m.PlanFor = func(mm *module.MsgMetadata) *actors.ModPlan {
+			mp := &actors.ModPlan{}
+			if tx := w.txByFrom[mm.OriginalFrom]; tx != nil && len(tx.modFail) > 0 {
+				mp.RcptErr = map[string]actors.Outcome{}
+				for r := range tx.modFail {
+					mp.RcptErr[r], mp.RcptErr[cleanAddr(r)] = actors.Perm, actors.Perm
+				}
+			}
+			return mp
+		}
+		module.RegisterInstance(m, nil)
+		delete(module.Initialized, "modD1")
+		d1blk = append(d1blk, block("modify", nil, node("&modD1")))
+	}
+	d1blk = append(d1blk, node("deliver_to", "&t1"))
 	cfg := []config.Node{
 		node("hostname", "mx.sim.example"), node("tls", "off"),
 		node("defer_sender_reject", map[bool]string{true: "yes", false: "no"}[w.deferRj]),
@@ -324,7 +347,7 @@ func (w *c06World) build06() error {
 	cfg = append(cfg,
 		block("source", []string{"origin.example"},
 			block("check", nil, node("&S")),
-			block("destination", []string{"a.example"}, block("check", nil, d1...), node("deliver_to", "&t1")),
+			block("destination", []string{"a.example"}, d1blk...),
 			block("destination", []string{"b.example"}, block("check", nil, node("&D2")), toT2),
 			rej),
 		block("source", []string{"other.example"},
@@ -365,12 +388,19 @@ func (w *c06World) genTxs() {
 		ntx = 2 + s.T.Choose(st, 2)
 	}
 	w.txByFrom = map[string]*c06Tx{}
+	nullUsed := false
 	for j := 0; j < ntx; j++ {
 		dom := []string{"origin.example", "origin.example", "other.example", "third.example"}[s.T.Choose(st, 4)]
 		if w.shareBias {
 			dom = []string{"origin.example", "other.example"}[j%2]
 		}
 		tx := &cTx{Marker: fmt.Sprintf("cl1-%d", j+1), From: fmt.Sprintf("s%d@%s", j+1, dom), Ending: endData}
+		if !nullUsed && s.T.Choose(st, 6) == 0 {
+			// the null sender (a bounce): default source, and every stage of
+			// every applicable check all the same (one per run: transactions
+			// are told apart by their sender)
+			tx.From, dom, nullUsed = "", "", true
+		}
 		nr := 1 + s.T.Choose(st, 3)
 		for k := 0; k < nr; k++ {
 			r := c06Rcpts[s.T.Choose(st, len(c06Rcpts))]
@@ -391,6 +421,17 @@ func (w *c06World) genTxs() {
 			}
 		}
 		ctx := &c06Tx{cTx: tx, plans: map[string]*actors.CheckPlan{}}
+		if w.d1mod && dom == "origin.example" && s.T.Choose(st, 2) == 0 {
+			var as []string
+			for _, r := range tx.Rcpts {
+				if rcptDomain(r) == "a.example" {
+					as = append(as, r)
+				}
+			}
+			if len(as) > 0 {
+				ctx.modFail = map[string]bool{as[s.T.Choose(st, len(as))]: true}
+			}
+		}
 		ctx.dm = []string{"", "norecord", "p-none", "quarantine", "quarantine", "reject", "tempfail"}[s.T.Choose(st, 7)]
 		ctx.auth = []string{"fail", "fail", "dkim-pass", "spf-pass", "absent"}[s.T.Choose(st, 5)]
 		hdr := "Subject: sim " + tx.Marker + "\r\nX-Sim-Tx: " + tx.Marker + "\r\n"
@@ -590,10 +631,15 @@ func (w *c06World) model(tx *c06Tx) c06Expect {
 					rej = rej || g.reject
 					q = q || g.quarantine
 				}
-				if !rej {
+				if !rej && !tx.modFail[r] {
 					blocksAccepted[dom] = true
 				}
 			}
+		}
+		if !rej && tx.modFail[r] {
+			// the block's modifier (after its checks) refuses the recipient:
+			// the command fails, the block keeps what it accepted before
+			rej = true
 		}
 		e.rcptReject[r] = rej
 		if rej {
